@@ -263,7 +263,7 @@ impl Property for C13 {
             }
             match materialize_named(i, s, &dir, &tmp, &tz, case.stems.get(i).map(|s| s.as_str())) {
                 Ok(m) => mats.push(m),
-                Err(e) => return Outcome::inconclusive(e),
+                Err(e) => return crate::sources::materialize_failed(e),
             }
         }
         let kinds: Vec<bool> = case.srcs.iter().map(|s| matches!(s, Source::Fixed { .. })).collect();
